@@ -36,6 +36,27 @@ static uint64_t gen_bsvalue(rng_t *r, int width) {
     }
 }
 
+/* call sites whose width is a compile-time constant (flagsSetBool-style uses): the compiler may specialise the inlined
+ * Set/Get for each literal */
+#define LITWIDTHS(X) X(1) X(2) X(3) X(4) X(5) X(6) X(7) X(8) X(9) X(10) X(11) X(12) X(13) X(14) X(15) X(16) X(17) X(18) X(19) X(20) X(21) X(22) \
+    X(23) X(24) X(25) X(26) X(27) X(28) X(29) X(30) X(31) X(32) X(33) X(34) X(35) X(36) X(37) X(38) X(39) X(40) X(41) X(42) X(43) X(44) X(45) X(46) \
+    X(47) X(48) X(49) X(50) X(51) X(52) X(53) X(54) X(55) X(56) X(57) X(58) X(59) X(60) X(61) X(62) X(63) X(64)
+static void set_literal_width(vbits *s, size_t off, int width, vbitsVal v) {
+    switch (width) {
+#define X(n) case n: if (n <= W) varintBitstreamSet(s, off, n, v); break;
+        LITWIDTHS(X)
+#undef X
+    default: break;
+    }
+}
+static vbitsVal get_literal_width(const vbits *s, size_t off, int width) {
+    switch (width) {
+#define X(n) case n: return n <= W ? varintBitstreamGet(s, off, n) : 0;
+        LITWIDTHS(X)
+#undef X
+    default: return 0;
+    }
+}
 static void pair_case(uint64_t idx, rng_t *r) {
     uint64_t g = idx * g_nshards + g_shard;
     int offmod = (int)(g % (uint64_t)W);
@@ -66,9 +87,14 @@ static void pair_case(uint64_t idx, rng_t *r) {
             for (int b = 0; b < width; b++) prevwant = (prevwant << 1) | (uint64_t)mbit(s, off + (size_t)b);
             g_ctx = "varintBitstreamSet";
             snprintf(g_sub, sizeof g_sub, "offset=%zu width=%d value=%" PRIu64, off, width, v);
-            varintBitstreamSet(s, off, (size_t)width, (vbitsVal)v);
+            if (k & 1) {
+                set_literal_width(s, off, width, (vbitsVal)v);
+                STAT_INC("c11_writes_with_literal_width");
+            } else {
+                varintBitstreamSet(s, off, (size_t)width, (vbitsVal)v);
+            }
             g_ctx = "varintBitstreamGet";
-            uint64_t back = (uint64_t)varintBitstreamGet(s, off, (size_t)width);
+            uint64_t back = (uint64_t)((k & 2) ? get_literal_width(s, off, width) : varintBitstreamGet(s, off, (size_t)width));
             if (prev != prevwant) {
                 BFAIL("varintBitstreamGet", "read-differs-from-documented-layout", "offset %zu width %d read %" PRIu64 " stream holds %" PRIu64, off, width, prev, prevwant);
                 free(expect);
@@ -108,9 +134,10 @@ static void pair_case(uint64_t idx, rng_t *r) {
             vbits words[4] = {0, 0, 0, 0};
             int64_t val = x;
             g_ctx = "_varintBitstreamPrepareSigned";
-            if (val < 0) {
+            if (val < 0)
                 _varintBitstreamPrepareSigned(val, width);
-            }
+            else
+                val += 0;
             uint64_t stored = (uint64_t)val & (width == 64 ? UINT64_MAX : ((1ULL << width) - 1));
             if (stored != (uint64_t)val) {
                 BFAIL("_varintBitstreamPrepareSigned", "prepared-value-does-not-fit-width", "x=%" PRId64 " width %d prepared %" PRIx64, x, width, (uint64_t)val);
@@ -119,7 +146,21 @@ static void pair_case(uint64_t idx, rng_t *r) {
             varintBitstreamSet(words, (size_t)offmod, (size_t)width, (vbitsVal)stored);
             int64_t res = (int64_t)varintBitstreamGet(words, (size_t)offmod, (size_t)width);
             g_ctx = "_varintBitstreamRestoreSigned";
-            _varintBitstreamRestoreSigned(res, width);
+            if (k & 1) {
+                _varintBitstreamRestoreSigned(res, width);
+            } else {
+                /* the macros as the sole, un-braced statement of an if/else (they are documented as statements) */
+                int64_t other = 0;
+                if (x != 0)
+                    _varintBitstreamRestoreSigned(res, width);
+                else
+                    other = 1;
+                if (other != (x == 0)) {
+                    BFAIL("_varintBitstreamRestoreSigned", "macro-is-not-one-statement", "x=%" PRId64 " width %d: the else branch of the caller ran for a non-zero value", x, width);
+                    return;
+                }
+                if (x == 0) _varintBitstreamRestoreSigned(res, width);
+            }
             if (res != x) {
                 BFAIL("_varintBitstreamRestoreSigned", "signed-value-not-restored", "x=%" PRId64 " width %d restored %" PRId64, x, width, res);
                 return;
